@@ -112,8 +112,9 @@ def width_case(symbolic, cfg, vals):
     if not symbolic and len(masks) != cfg["K"]:
         return None   # replay outside this obligation's interval count
     mx = [m[0] for m in masks]
-    lo0, hiK = bounds[0][0], bounds[-1][1]
-    covered = j.AND(lo0 < x, x <= hiK) if not cfg["right_open"] else j.AND(lo0 <= x, x < hiK)
+    # the documented value range is [0, max(data)] (resp. the given range): every observation in it is covered -
+    # the maximum included - except the lower end 0 itself when intervals are left-open
+    covered = j.AND(0.0 < x, x <= dmax) if not cfg["right_open"] else j.AND(0.0 <= x, x <= dmax)
     return _judge_partition(j, x, mx, bounds, not cfg["right_open"], covered)
 
 
